@@ -31,7 +31,7 @@ What is reported:
         undecodable-for-receiver            the receiver decodes header bytes (header_encoding) and the sender sent
                                             bytes that are not text in that encoding (exempt, not reported)
         unexplained                         none of the above
-  header-event-… / data-event-… / push-event-… / ping-… / settings-… / reset-code-…   what the receiver reports is
+  header-event-… / data-event-… / push-event-… / ping-… / settings-… / reset-code-… / priority-event-…   what the receiver reports is
       not, stream by stream and in order, what the sender's successful calls sent (prefix relation: bytes may still be
       in flight, frames for a stream the receiver has reset are dropped).
 """
@@ -77,9 +77,9 @@ def oracle_C01(run):
     def new_endpoint(op):
         return {'cfg': op, 'connected': False, 'wire': b'', 'done': 0,
                 'S': {'hdr': {}, 'data': {}, 'ended': set(), 'reset': {}, 'ping': [], 'settings': [], 'push': {},
-                      'cl': {}, 'sent_bytes': {}, 'biggest': {}, 'over_limit': set()},
+                      'cl': {}, 'sent_bytes': {}, 'biggest': {}, 'over_limit': set(), 'prio': {}},
                 'acks': 0, 'diverged': False,
-                'R': {'hdr': {}, 'data': {}, 'ping': [], 'settings': []},
+                'R': {'hdr': {}, 'data': {}, 'ping': [], 'settings': [], 'prio': {}},
                 'taint': {}}
 
     def taint(c, sid, cause):
@@ -151,6 +151,9 @@ def oracle_C01(run):
                     taint(c, sid, 'data-before-final-headers')
             elif o == 'reset_stream':
                 S['reset'].setdefault(sid, set()).add(op.get('code', 0))
+            elif o == 'prioritize':
+                S['prio'].setdefault(sid, []).append((op.get('pw') if op.get('pw') is not None else 16,
+                                                      op.get('pd') or 0, bool(op.get('pe'))))
             elif o in ('send_headers', 'push_stream'):
                 if _ill_typed_headers(op):
                     return out
@@ -183,6 +186,9 @@ def oracle_C01(run):
                     else:
                         kind = 'response'
                 S['hdr'].setdefault(sid, []).append((kind, hs))
+                if any(op.get(k2) is not None for k2 in ('pw', 'pd', 'pe')):
+                    S['prio'].setdefault(sid, []).append((op.get('pw') if op.get('pw') is not None else 16,
+                                                          op.get('pd') or 0, bool(op.get('pe'))))
                 S['biggest'][sid] = max(S['biggest'].get(sid, 0), _hdr_list_size(hs))
                 if _hdr_list_size(hs) > _limit(obs['snap_before']['remote'].get(6), None):
                     S['over_limit'].add(sid)                 # larger than the limit the peer had advertised by then
@@ -315,6 +321,18 @@ def oracle_C01(run):
                     return out
             elif nm == 'SettingsAcknowledged':
                 Y['acks'] += 1
+            elif nm == 'PriorityUpdated':
+                # priority information comes through as sent: (weight, depends_on, exclusive), in order per stream
+                # (a HEADERS frame for a stream the receiver has reset is dropped with its priority fields: subsequence)
+                got = (e.weight, e.depends_on, bool(e.exclusive))
+                sent_p = S['prio'].get(e.stream_id, [])
+                pos = R['prio'].get(e.stream_id, 0)
+                while pos < len(sent_p) and sent_p[pos] != got:
+                    pos += 1
+                if pos >= len(sent_p):
+                    out.append(fail('priority-event-differs-from-send', i, sid=e.stream_id, got=got, sent=sent_p[-4:]))
+                    return out
+                R['prio'][e.stream_id] = pos + 1
             elif nm == 'PingReceived':
                 R['ping'].append(bytes(e.ping_data))
                 if R['ping'] != S['ping'][:len(R['ping'])]:
